@@ -103,6 +103,9 @@ impl World {
         let msgs = group(&frames);
         let mut used = 0;
         let mut out = vec![200];
+        // maximal runs of Rejected messages are compared sorted by port (the helper tasks that refuse requests
+        // dropped together run in no particular order)
+        let mut run: Vec<(u32, Vec<u128>)> = Vec::new();
         for m in &msgs {
             used += m.frames;
             let renamed = match &m.msg {
@@ -139,11 +142,26 @@ impl World {
                     v
                 }
                 MultiplexMsg::PortCredits { .. } | MultiplexMsg::Ping => continue,
+                MultiplexMsg::Rejected { client_port, .. } => {
+                    let mut v = msg_to_nums(&m.msg);
+                    v.push(0);
+                    v.push(201);
+                    run.push((*client_port, v));
+                    continue;
+                }
                 other => msg_to_nums(other),
             };
+            run.sort_by_key(|x| x.0);
+            for (_, v) in run.drain(..) {
+                out.extend(v);
+            }
             out.extend(renamed);
             out.push(m.payload.as_ref().map(|p| p.len() as u128).unwrap_or(0));
             out.push(201);
+        }
+        run.sort_by_key(|x| x.0);
+        for (_, v) in run.drain(..) {
+            out.extend(v);
         }
         self.seen += used;
         out.extend([202, self.status]);
@@ -203,18 +221,46 @@ fn exec_port_flood(seed: u64) -> (Vec<u128>, String, String) {
         let per = r.range(1, 3) as usize;
         let dup = r.chance(1, 4);
         let ver: u8 = if r.chance(1, 4) { 2 } else { 3 };
-        let sig = format!("ep:flood:{}", if dup { "dup" } else { "nolast" });
-        let cfg = Cfg { connection_timeout: None, max_received_ports: maxp, max_ports: 1000, connect_queue: 4, ..Default::default() };
+        // third kind: a local sender is blocked on flow credits when the peer violates the protocol; the protocol error
+        // must reach that user too
+        let blocked = !dup && r.chance(1, 3);
+        // fourth kind: more open requests of one kind than the advertised connect queue, listener alive but idle
+        let openflood = !dup && !blocked && r.chance(1, 3);
+        let cq = r.range(1, 3) as u16;
+        let sig = format!("ep:flood:{}", if dup { "dup" } else if blocked { "blocked" } else if openflood { "opens" } else { "nolast" });
+        let cfg = Cfg { connection_timeout: None, max_received_ports: maxp, max_ports: 1000, connect_queue: if openflood { cq } else { 4 }, ..Default::default() };
         let net = Net::new(true);
         let hello = MultiplexMsg::Hello {
             version: ver,
-            cfg: ExchangedCfg { connection_timeout: None, chunk_size: 1 << 16, port_receive_buffer: 1 << 20, connect_queue: 1000 },
+            cfg: ExchangedCfg { connection_timeout: None, chunk_size: 1 << 16, port_receive_buffer: if blocked { 16 } else { 1 << 20 }, connect_queue: 1000 },
         };
         net.b2a.inject(Bytes::from(encode(&MultiplexMsg::Reset)));
         net.b2a.inject(Bytes::from(encode(&hello)));
         let (mux, _client, mut listener) = ChMux::new(cfg, net.a2b.sink(), net.b2a.stream()).await.expect("handshake");
         let mut run = tokio::spawn(mux.run());
         quiesce().await;
+        if openflood {
+            let wait = r.chance(1, 2);
+            // cq + 1 requests fit (the extra slot is for the client-dropped marker); one more is a violation
+            for i in 0..(cq as u32 + 2) {
+                if run.is_finished() {
+                    return (sig, format!("FAIL: C08 the connection ended after only {i} open requests with a connect queue of {cq}"));
+                }
+                let p = 50 + i;
+                net.b2a.inject(Bytes::from(encode(&MultiplexMsg::OpenPort { client_port: p, wait, id: if ver >= 3 { Some(p) } else { None } })));
+                quiesce().await;
+            }
+            quiesce().await;
+            if !run.is_finished() {
+                return (sig, format!("FAIL: C08 {} unanswered open requests (wait = {wait}) were accepted although the connect queue is {cq}: the request limit is not enforced", cq + 2));
+            }
+            let _keep = &listener;
+            return match (&mut run).await {
+                Ok(Err(ChMuxError::Protocol(_))) => (sig, "ok".into()),
+                Ok(other) => (sig, format!("FAIL: C08 too many open requests ended the dispatcher with {:?} instead of a protocol error", other.map_err(|e| e.to_string()))),
+                Err(_) => (sig, "FAIL: C08 the dispatcher panicked".into()),
+            };
+        }
         // the peer opens a port, the endpoint accepts
         net.b2a.inject(Bytes::from(encode(&MultiplexMsg::OpenPort { client_port: 5, wait: true, id: if ver >= 3 { Some(5) } else { None } })));
         quiesce().await;
@@ -235,6 +281,67 @@ fn exec_port_flood(seed: u64) -> (Vec<u128>, String, String) {
         quiesce().await;
         let local = rx.local_port();
         let mut next = 100u32;
+        if blocked {
+            let mut tx = _tx;
+            let kind = r.below(3);
+            let send = tokio::spawn(async move {
+                let res = match kind {
+                    0 => tx.send(Bytes::from(vec![1u8; 200])).await.is_err(),
+                    1 => {
+                        let alloc = tx.port_allocator();
+                        let mut ports = Vec::new();
+                        for _ in 0..8 {
+                            ports.push(PortReq::new(alloc.allocate().await));
+                        }
+                        tx.connect(ports, true).await.is_err()
+                    }
+                    _ => {
+                        let mut cs = tx.send_chunks();
+                        let mut failed = false;
+                        for _ in 0..8 {
+                            match cs.send(Bytes::from(vec![2u8; 10])).await {
+                                Ok(next) => cs = next,
+                                Err(_) => {
+                                    failed = true;
+                                    break;
+                                }
+                            }
+                        }
+                        failed
+                    }
+                };
+                res
+            });
+            quiesce().await;
+            quiesce().await;
+            if send.is_finished() {
+                return (sig, "FAIL: harness: the send was not blocked".into());
+            }
+            // the peer violates the protocol
+            let bad = match r.below(3) {
+                0 => MultiplexMsg::Data { port: 99_999, first: true, last: true },
+                1 => MultiplexMsg::Hello { version: ver, cfg: ExchangedCfg { connection_timeout: None, chunk_size: 1 << 16, port_receive_buffer: 16, connect_queue: 1000 } },
+                _ => MultiplexMsg::PortCredits { port: 99_998, credits: 5 },
+            };
+            net.b2a.inject(Bytes::from(encode(&bad)));
+            if let MultiplexMsg::Data { .. } = bad {
+                net.b2a.inject(Bytes::from(vec![0u8; 3]));
+            }
+            for _ in 0..4 {
+                quiesce().await;
+            }
+            if !run.is_finished() {
+                return (sig, "FAIL: C08 a protocol violation did not end the connection".into());
+            }
+            if !send.is_finished() {
+                return (sig, "FAIL: C08 a sender blocked on flow credits does not observe the protocol error that ended the connection (it hangs)".into());
+            }
+            return match send.await {
+                Ok(true) => (sig, "ok".into()),
+                Ok(false) => (sig, "FAIL: C08 a blocked send completed successfully after the connection ended with a protocol error".into()),
+                Err(_) => (sig, "FAIL: C08 panic in a send".into()),
+            };
+        }
         if dup {
             let ids = if ver >= 3 { Some(vec![7, 7]) } else { None };
             net.b2a.inject(Bytes::from(encode(&MultiplexMsg::PortData { port: local, first: true, last: true, wait: false, ports: vec![7, 7], ids })));
@@ -395,6 +502,11 @@ pub fn exec(inp: &[u128]) -> (Vec<u128>, String, String) {
                         sigs.push("take");
                         if let Some(l) = &mut w.listener {
                             if let Some(Ok(Some(req))) = l.inspect().now_or_never() {
+                                // every request the harness sends carries its own port number as id, or no id (then the id
+                                // is documented to be the remote port)
+                                if req.id() != req.remote_port() && w.c09.is_none() {
+                                    w.c09 = Some(format!("FAIL: C09 open request from remote port {} was handed to the listener with id {}", req.remote_port(), req.id()));
+                                }
                                 w.held.insert(req.remote_port(), req);
                             }
                         }
@@ -429,8 +541,18 @@ pub fn exec(inp: &[u128]) -> (Vec<u128>, String, String) {
                     }
                     (9, [k]) => {
                         sigs.push("recv");
+                        let mut bad: Option<String> = None;
                         if let Some(rx) = w.receivers.get_mut(&(BASE + *k)) {
-                            let _ = rx.recv_any().now_or_never();
+                            if let Some(Ok(Some(chmux::Received::Requests(reqs)))) = rx.recv_any().now_or_never() {
+                                for q in &reqs {
+                                    if q.id() != q.remote_port() {
+                                        bad = Some(format!("FAIL: C09 port request for remote port {} (sent with its own number as id, or with no id) was received with id {}", q.remote_port(), q.id()));
+                                    }
+                                }
+                            }
+                        }
+                        if bad.is_some() && w.c09.is_none() {
+                            w.c09 = bad;
                         }
                     }
                     (10, [k]) => {
@@ -606,6 +728,7 @@ pub fn gen(r: &mut Rng, i: usize) -> Vec<Vec<u128>> {
     let mut ports: Vec<PortShadow> = Vec::new();
     let mut connecting: Vec<u128> = Vec::new(); // canonical numbers of pending local connects
     let mut queued: Vec<u32> = Vec::new(); // remote ports of requests in the listener queue
+    let mut queued_wait = true; // their kind
     let mut held: Vec<u32> = Vec::new();
     let mut next_remote: u32 = 10;
     let mut clients = true;
@@ -637,7 +760,12 @@ pub fn gen(r: &mut Rng, i: usize) -> Vec<Vec<u128>> {
                 // the peer opens a port
                 let q = next_remote;
                 next_remote += 1;
-                push_msg(&mut v, 0, &MultiplexMsg::OpenPort { client_port: q, wait: true, id: if ver >= 3 { Some(q) } else { None } });
+                // (both kinds of request: the listener has one queue for each)
+                // both kinds of request occur, but only one kind is queued at a time: the listener has one queue per kind and
+                // picks between them in no particular order
+                let w = if queued.is_empty() { r.chance(2, 3) } else { queued_wait };
+                queued_wait = w;
+                push_msg(&mut v, 0, &MultiplexMsg::OpenPort { client_port: q, wait: w, id: if ver >= 3 { Some(q) } else { None } });
                 if listener {
                     queued.push(q);
                 }
@@ -770,7 +898,9 @@ pub fn gen(r: &mut Rng, i: usize) -> Vec<Vec<u128>> {
                     5 => push_op(&mut v, 20, &[0, 12, local]),
                     6 => push_op(&mut v, 20, &[0, 9, local, *r.pick(&[0u128, 1, 4294967295])]),
                     7 if !peer_clientfin => {
-                        push_op(&mut v, 20, &[0, 4, rp, 1, 1, rp]);
+                        let w = if queued.is_empty() { r.chance(1, 2) } else { queued_wait };
+                        queued_wait = w;
+                        push_op(&mut v, 20, &[0, 4, rp, w as u128, 1, rp]);
                         if listener {
                             queued.push(rp as u32);
                         }
